@@ -163,6 +163,61 @@ def run(R):
                  "dropped graph creates / resurrects its identity" % ("catalog" if t.field == CAT else "index"))
     R.floor("C04-R6", "deleting writers", len(delete_role), 1)
 
+    # ---- R7 the named-graph reader reads named graphs only
+    R.rule("C04-R7", "the across-named-graphs reader never reads the default graph: every graph it hands to query_graph comes from the "
+                     "catalog of named graphs (a caller-supplied visible set may only filter that list), and its fully-bound fast path "
+                     "drops GraphId::Default - so all its arms agree on which graphs count")
+    from lib import pipeline as P
+    qn = R.body("C04-R7", "DatasetIndex::query_named_graphs")
+    if qn is not None:
+        R.saw(qn)
+        qg = [c for c in qn.calls() if c.name() == "query_graph"]
+        R.ob("C04-R7", "delegates", "query_named_graphs reads graph by graph through query_graph (found %d call)" % len(qg), len(qg) >= 1, where=qn.where())
+        for c in qg:
+            drv = P.loop_driver(qn, c.bb)
+            terms = []
+            if drv and drv[2] is not None and drv[2].get("in"):
+                call0 = drv[2]["call"]
+                P.coverage_terminals(prog, qn, call0.args[0], set(), terms)
+            srcs = sorted({"%s:%s" % (t[0], t[1]) for t in terms})
+            ok = bool(terms) and all(t[0] == "call" and t[1] == "named_graphs" for t in terms)
+            if not ok and terms and all((t[0] == "call" and t[1] == "named_graphs") or (t[0] == "param" and t[1] == "visible_graphs") for t in terms):
+                # graphs taken from the visible set are fine if the pipeline keeps named, existing graphs only
+                tests_named = tests_exists = False
+                for x in prog.family(qn.key):
+                    if not x.is_closure:
+                        continue
+                    for cc in x.calls():
+                        if cc.name() in ("graph_exists", "contains") :
+                            tests_exists = True
+                        if cc.name() in ("ne", "eq") and any("GraphId" in x.local_ty((F.op_place(a) or {"l": 0})["l"]) for a in cc.args if F.op_place(a)):
+                            tests_named = True
+                    for bb, t in x.terms():
+                        if t["t"] == "switch":
+                            d = G.describe_discr(x, t["discr"])
+                            if d.get("kind") == "discr" and (d.get("adt") or "").endswith("GraphId"):
+                                tests_named = True
+                # the fast path has its own `!= Default`; demand a second, separate named-test for the candidate list
+                ncmp = sum(1 for x in prog.family(qn.key) if x.is_closure for cc in x.calls() if cc.name() in ("ne", "eq") and
+                           any("GraphId" in x.local_ty((F.op_place(a) or {"l": 0})["l"]) for a in cc.args if F.op_place(a)))
+                nsw = sum(1 for x in prog.family(qn.key) if x.is_closure for bb, t in x.terms() if t["t"] == "switch" and
+                          G.describe_discr(x, t["discr"]).get("kind") == "discr" and (G.describe_discr(x, t["discr"]).get("adt") or "").endswith("GraphId"))
+                ok = tests_exists and (ncmp + nsw) >= 2
+            R.ob("C04-R7", "catalog-only", "the graphs visited are taken from named_graphs() only (sources: %s)" % srcs, ok, where=qn.where(c.ln),
+                 detail=None if ok else "graphs taken from a caller-supplied set may include GraphId::Default: the default graph's quads are then "
+                 "returned as named-graph matches for every not fully bound pattern, while the fully bound arm still excludes them")
+        # fast path: a comparison against GraphId::Default filters the graph set
+        fam = prog.family(qn.key)
+        drops = False
+        for x in fam:
+            for cc in x.calls():
+                if cc.name() in ("ne", "eq") and any("GraphId" in x.local_ty((F.op_place(a) or {"l": 0})["l"]) for a in cc.args if F.op_place(a)):
+                    drops = True
+            for bb, i, pl, rv, st in x.assigns():
+                if rv["rv"] == "aggregate" and rv.get("variant") == "Default" and (rv.get("adt") or "").endswith("GraphId"):
+                    drops = drops or True
+        R.ob("C04-R7", "fast-path-drops-default", "the fully bound fast path excludes GraphId::Default", drops, where=qn.where())
+
     # ---- R5 rebuild
     r5(R)
 
